@@ -1,94 +1,91 @@
 /-
 C16 — transliteration of `appendable.Metadata.ReadFrom` / `readField`
 (/repo/embedded/appendable/metadata.go) reading through the reader that `NewMetadata` builds:
-`bufio.NewReader(bytes.NewBuffer(b))` (default buffer size 4096).
+`bufio.NewReader(bytes.NewBuffer(b))`.
 
-`Read` is a SINGLE read (not `io.ReadFull`): short reads are silently accepted by `readField`,
-the rest of the destination stays zero.  Field contents are therefore represented as
-`data ++ 0^pad` without materialising the padding (a declared length can be 2^32-1).
+`readField` reads with `io.ReadFull` (the 4 length bytes) and `io.ReadAll(io.LimitReader(r, len))`
+(the data): both loop over `Read` until the request is complete or the reader is exhausted, so the
+4096-byte buffer of the `bufio.Reader` is not observable — the reader is just the unread input.
+A field is the bytes actually read; a field shorter than its declared length is an error
+(`io.ErrUnexpectedEOF`), nothing is allocated from the declared length.
 -/
 import ImmuModel.Base.GoSlice
 namespace ImmuModel.Decode
 open ImmuModel ImmuModel.Go
 
-def bufioDefaultBufSize : Nat := 4096
-
-/-- `bufio.Reader` over a `bytes.Buffer`: unread buffered bytes and unread underlying bytes. -/
+/-- `bufio.Reader` over a `bytes.Buffer`: the unread bytes (buffered or not). -/
 structure BufReader where
-  buf : Bytes := []
   rest : Bytes
   deriving Repr
 
-/-- `(*bufio.Reader).Read(p)` with `len(p) = n`: the bytes stored into `p` (possibly fewer than `n`)
-or `io.EOF`.
+/-- `io.ReadFull(r, p)` with `len(p) = n`, `r` a `bufio.Reader` over a `bytes.Buffer`.
 ```go
-	n = len(p)
-	if n == 0 { if b.Buffered() > 0 { return 0, nil }; return 0, b.readErr() }
-	if b.r == b.w {
-		if b.err != nil { return 0, b.readErr() }
-		if len(p) >= len(b.buf) { n, b.err = b.rd.Read(p); …; return n, b.readErr() }   // direct read
-		b.r = 0; b.w = 0
-		n, b.err = b.rd.Read(b.buf)
-		if n == 0 { return 0, b.readErr() }
-		b.w += n
-	}
-	n = copy(p, b.buf[b.r:b.w]); b.r += n
-	return n, nil
+func ReadAtLeast(r Reader, buf []byte, min int) (n int, err error) {   // ReadFull: min = len(buf)
+	for n < min && err == nil { var nn int; nn, err = r.Read(buf[n:]); n += nn }
+	if n >= min { err = nil } else if n > 0 && err == EOF { err = ErrUnexpectedEOF }
+	return
+}
 ```
-`bytes.Buffer.Read` returns `(0, io.EOF)` when empty (and `len(p) > 0`), else copies `min`. -/
-def BufReader.read (r : BufReader) (n : Nat) : R Bytes × BufReader :=
+`(*bufio.Reader).Read` on a non-empty `p` returns `n > 0, nil` while bytes are left (buffered or in
+the `bytes.Buffer`) and `0, io.EOF` afterwards. -/
+def BufReader.readFull (r : BufReader) (n : Nat) : R Bytes × BufReader :=
   if n = 0 then (.ok [], r)
-  else if r.buf.isEmpty then
-    if r.rest.isEmpty then (.err .eof, r)
-    else if n ≥ bufioDefaultBufSize then (.ok (r.rest.take n), { r with rest := r.rest.drop n })
-    else
-      let buf := r.rest.take bufioDefaultBufSize
-      let rest := r.rest.drop bufioDefaultBufSize
-      (.ok (buf.take n), { buf := buf.drop n, rest := rest })
-  else (.ok (r.buf.take n), { r with buf := r.buf.drop n })
+  else if r.rest.isEmpty then (.err .eof, r)
+  else if r.rest.length < n then (.err .unexpectedEof, { rest := [] })
+  else (.ok (r.rest.take n), { rest := r.rest.drop n })
 
-/-- contents of a destination slice: `data ++ 0^pad` -/
-structure Field where
-  data : Bytes
-  pad : Nat
-  deriving DecidableEq, Repr
+/-- `io.ReadAll(io.LimitReader(r, n))`: the next `min n (bytes left)` bytes; `io.EOF` of either reader
+ends the loop and is not reported.
+```go
+func (l *LimitedReader) Read(p []byte) (n int, err error) {
+	if l.N <= 0 { return 0, EOF }
+	if int64(len(p)) > l.N { p = p[0:l.N] }
+	n, err = l.R.Read(p); l.N -= int64(n); return
+}
+func ReadAll(r Reader) ([]byte, error) {
+	b := make([]byte, 0, 512)
+	for {
+		n, err := r.Read(b[len(b):cap(b)]); b = b[:len(b)+n]
+		if err != nil { if err == EOF { err = nil }; return b, err }
+		if len(b) == cap(b) { b = append(b, 0)[:len(b)] }            // grows with the bytes READ
+	}
+}
+``` -/
+def BufReader.readAllLimited (r : BufReader) (n : Nat) : Bytes × BufReader :=
+  (r.rest.take n, { rest := r.rest.drop n })
 
-def Field.len (f : Field) : Nat := f.data.length + f.pad
-
-/-- `binary.BigEndian.Uint32(f)`: panics iff `len(f) < 4`. -/
-def Field.rdU32 (f : Field) : M Nat :=
-  if f.len < 4 then M.panic else M.pure (beVal (copyFixed 4 f.data))
-
-/-- `make([]byte, n)` followed by a `Read` that stored `got`: only the size is observable here. -/
-def makeN (n : Nat) : M Unit := ⟨.ok (), n⟩
+/-- The buffer of `io.ReadAll` is grown by `append` while data arrives: its size follows the number of
+bytes READ (amortised, at most `max 512 (2·got)`), not the declared length.  The allocation observable
+counts the bytes stored. -/
+def grown (got : Bytes) : M Unit := ⟨.ok (), got.length⟩
 
 /--
 ```go
 func readField(r io.Reader) ([]byte, error) {
 	var lenb [4]byte
-	_, err := r.Read(lenb[:]); if err != nil { return nil, err }
-	len := binary.BigEndian.Uint32(lenb[:])
-	fb := make([]byte, len)
-	_, err = r.Read(fb); if err != nil { return nil, err }
+	_, err := io.ReadFull(r, lenb[:]); if err != nil { return nil, err }
+	flen := binary.BigEndian.Uint32(lenb[:])
+	// the declared length is not trusted: the buffer grows as data is actually read
+	fb, err := io.ReadAll(io.LimitReader(r, int64(flen))); if err != nil { return nil, err }
+	if uint32(len(fb)) < flen { return nil, io.ErrUnexpectedEOF }
 	return fb, nil
 }
 ``` -/
-def readField (r : BufReader) : M (Field × BufReader) :=
-  match r.read 4 with
+def readField (r : BufReader) : M (Bytes × BufReader) :=
+  match r.readFull 4 with
   | (.err e, _) => M.fail e
   | (.panic, _) => M.panic
   | (.ok got, r) => do
     let lenb := copyFixed 4 got
-    let len ← rdU32 lenb
-    makeN len
-    match r.read len with
-    | (.err e, _) => M.fail e
-    | (.panic, _) => M.panic
-    | (.ok got, r) => pure ({ data := got, pad := len - got.length }, r)
+    let flen ← rdU32 lenb
+    let rd := r.readAllLimited flen
+    grown rd.1
+    if rd.1.length < flen then M.fail .unexpectedEof
+    else pure (rd.1, rd.2)
 
 /-- `for i := 0; i < len; i++ { k := readField; v := readField; m.data[string(k)] = v }`
 (first argument: iterations still to run). -/
-def appMetadataLoop : Nat → BufReader → List (Field × Field) → M (List (Field × Field))
+def appMetadataLoop : Nat → BufReader → List (Bytes × Bytes) → M (List (Bytes × Bytes))
   | 0, _, acc => pure acc
   | todo+1, r, acc => do
     let (k, r) ← readField r
@@ -99,20 +96,21 @@ def appMetadataLoop : Nat → BufReader → List (Field × Field) → M (List (F
 ```go
 func (m *Metadata) ReadFrom(r io.Reader) (int64, error) {
 	lenb, err := readField(r); if err != nil { return 0, err }
+	if len(lenb) < 4 { return 0, ErrCorruptedMetadata }          // guard `appCount`
 	len := int(binary.BigEndian.Uint32(lenb))          // <- len(lenb) is whatever the input declared
 	for i := 0; i < len; i++ { … }
 	return int64(len), nil
 }
 ```
 The result is the list of `(key, value)` insertions in order (later ones override earlier ones in
-the Go map) and the returned count. -/
-def appMetadataReadFrom (fx : Fix) (b : Bytes) : M (Nat × List (Field × Field)) := do
+the Go map) and the returned count.  `fx.appCount = false` is the code WITHOUT the guard (the code
+before the repair; kept to show that the guard is necessary, see `appMetadata_readFrom_guard_necessary` in Props/C16.lean). -/
+def appMetadataReadFrom (fx : Fix) (b : Bytes) : M (Nat × List (Bytes × Bytes)) := do
   let r : BufReader := { rest := b }
   let (lenb, r) ← readField r
-  -- FIX (absent in the code): if len(lenb) < 4 { return 0, ErrCorruptedMetadata }
-  if fx.appCount && lenb.len < 4 then M.fail .corruptedMetadata
+  if fx.appCount && lenb.length < 4 then M.fail .corruptedMetadata
   else do
-    let len ← lenb.rdU32
+    let len ← rdU32 lenb
     let kvs ← appMetadataLoop len r []
     pure (len, kvs)
 
